@@ -137,6 +137,8 @@ def _drive(case, RE, Msg, res):
         docs_by_uid[doc["uid"]] = dict(doc)
         log.append((0, name, doc["uid"], False))
 
+    keepalive = []  # the registry holds bound methods weakly
+
     def make_cb(pos, spec):
         state = {"n": 0}
 
@@ -152,6 +154,29 @@ def _drive(case, RE, Msg, res):
                 raise e
 
         cb.__name__ = f"cb{pos}"
+        # the same behaviour in the shapes users subscribe: plain function, functools.partial, an object with
+        # __call__ (CallbackBase instances are such objects), a bound method
+        shape = spec.get("shape", "function")
+        if shape == "partial":
+            import functools
+
+            return functools.partial(lambda tag, name, doc: cb(name, doc), pos)
+        if shape == "object":
+
+            class _Obj:
+                def __call__(self, name, doc):
+                    return cb(name, doc)
+
+            return _Obj()
+        if shape == "method":
+
+            class _Holder:
+                def handle(self, name, doc):
+                    return cb(name, doc)
+
+            h = _Holder()
+            keepalive.append(h)
+            return h.handle
         return cb
 
     # subscription order: perm (in order), then per-call list (in order), then in-plan (in order)
@@ -375,6 +400,7 @@ def _strategy():
             "mode": st.sampled_from(["perm", "perm", "list", "plan"]),
             "raise_at": st.one_of(st.none(), st.integers(0, 6), st.integers(0, 3)),
             "sticky": st.booleans(),
+            "shape": st.sampled_from(["function", "function", "partial", "object", "method"]),
         }
     )
     op = st.one_of(
